@@ -552,6 +552,29 @@ fn dispatch(f: &[&str]) -> Option<String> {
             let v = parse_sval(f[4])?;
             Some(ser_answer(&fmt, &v, None))
         }
+        // s2 <cfg> <fmt> <ftab> <sval1> <sval2> : two documents through ONE Serializer (formatter state carried over)
+        "s2" if f.len() == 6 => {
+            let fmt = parse_fmt(f[2])?;
+            let v1 = parse_sval(f[4])?;
+            let v2 = parse_sval(f[5])?;
+            let mut w = RecWriter { bufs: vec![] };
+            let r = match &fmt {
+                Fmt::Compact => {
+                    let mut ser = serde_json::Serializer::new(&mut w);
+                    v1.serialize(&mut ser).and_then(|_| v2.serialize(&mut ser))
+                }
+                Fmt::Pretty(ind) => {
+                    let mut ser = serde_json::Serializer::with_formatter(&mut w, PrettyFormatter::with_indent(ind));
+                    v1.serialize(&mut ser).and_then(|_| v2.serialize(&mut ser))
+                }
+            };
+            let out: Vec<u8> = w.bufs.concat();
+            let h = if out.is_empty() { "-".to_string() } else { hex(&out) };
+            Some(match r {
+                Ok(()) => format!("ok {} {}", h, lens(&w.bufs)),
+                Err(e) => format!("err {} {} {}", code_name(&e), h, lens(&w.bufs)),
+            })
+        }
         // sv <cfg> <fmt> <ftab> <json hex>
         "sv" if f.len() == 5 => {
             let fmt = parse_fmt(f[2])?;
